@@ -547,8 +547,16 @@ func runCheck(id, tier string) int {
 		fmt.Fprintf(os.Stderr, "HARNESS: evidence: %v\n", err)
 		return 2
 	}
-	fmt.Printf("%s %s: runs=%d distinct_logs=%d nontrivial=%d states=%d checks=%d faults=%v wall=%.1fs (build %.1fs) violations=%d\n",
-		id, tier, a.runs, len(a.logHashes), len(a.nontrivial), len(a.states), a.checks, sortedCounts(a.faults), wall, buildS, nviol)
+	nfaults := uint64(0)
+	for _, n := range a.faults {
+		nfaults += uint64(n)
+	}
+	// (per-kind fault counts are in the evidence file; VERIF_VERBOSE=1 prints them)
+	if os.Getenv("VERIF_VERBOSE") != "" {
+		fmt.Printf("faults: %v\n", sortedCounts(a.faults))
+	}
+	fmt.Printf("%s %s: runs=%d distinct_logs=%d nontrivial=%d states=%d checks=%d fault_kinds=%d faults_fired=%d wall=%.1fs (build %.1fs) violations=%d\n",
+		id, tier, a.runs, len(a.logHashes), len(a.nontrivial), len(a.states), a.checks, len(a.faults), nfaults, wall, buildS, nviol)
 	// A probe the engine declares mandatory that stayed at zero is a harness defect.
 	for _, name := range p.MustProbes {
 		// (judged only when the batch was big enough for the probe to be expected)
